@@ -81,6 +81,9 @@ func RandomBalancedBinaryTree(depth int, rooted bool) (*Tree, error) {
 	if depth < 1 {
 		return nil, errors.New("Cannot create an random binary tree of depth < 1")
 	}
+	if depth < 2 && !rooted {
+		return nil, errors.New("Cannot create an unrooted balanced binary tree of depth < 2")
+	}
 
 	curdepth := 0
 	root := t.NewNode()
